@@ -57,6 +57,17 @@ func (v *FnV) specType(name string, pkg *packages.Package) (types.Type, error) {
 	if pkg == nil {
 		return nil, fmt.Errorf("unknown type %q", name)
 	}
+	if k := strings.Index(name, "."); k > 0 && !strings.ContainsAny(name, "*[]") {
+		for _, imp := range pkg.Types.Imports() {
+			if imp.Name() == name[:k] {
+				if o := imp.Scope().Lookup(name[k+1:]); o != nil {
+					if tn, ok := o.(*types.TypeName); ok {
+						return tn.Type(), nil
+					}
+				}
+			}
+		}
+	}
 	tv, err := types.Eval(v.c.fset, pkg.Types, token.NoPos, name)
 	if err != nil {
 		return nil, fmt.Errorf("type %q: %v", name, err)
@@ -321,6 +332,9 @@ func (v *FnV) spBin(st *State, e *SExpr, sc *Scope) Value {
 	b := v.sp(st, e.Args[1], sc)
 	a, b = v.unify(st, a, b)
 	switch e.Name {
+	case "===":
+		// representational identity (stronger than ==): same SMT term value
+		return Value{T: tBool, S: sEq(a.S, b.S)}
 	case "==":
 		if isBoolType(a.T) && isBoolType(b.T) {
 			return Value{T: tBool, S: sEq(a.S, b.S)}
@@ -568,6 +582,22 @@ func (v *FnV) spCall(st *State, e *SExpr, sc *Scope) Value {
 		v.c.nlFns()
 		s := arg(0)
 		return Value{T: tInt, S: sx("nl", sx("sbase", s.S), sAdd(sx("soff", s.S), arg(1).S), sAdd(sx("soff", s.S), arg(2).S))}
+	case "sindex":
+		v.c.glob("sindex", "(declare-fun sindex (Str Str) Int)")
+		a, b := arg(0), arg(1)
+		if !st.quiet {
+			st.assume(v.c.sindexFacts(v, a.S, b.S))
+		}
+		return Value{T: tInt, S: sx("sindex", a.S, b.S)}
+	case "atoi_ok":
+		v.c.atoiFns()
+		return Value{T: tBool, S: sx("atoi_ok", arg(0).S)}
+	case "atoi_val":
+		v.c.atoiFns()
+		return Value{T: tInt, S: sx("atoi_val", arg(0).S)}
+	case "atoi_range":
+		v.c.atoiFns()
+		return Value{T: nil, S: sx("atoi_range", arg(0).S)}
 	case "streq":
 		a, b := arg(0), arg(1)
 		return Value{T: tBool, S: v.eq(st, a, b, nil)}
